@@ -226,7 +226,7 @@ CHECKS = {
         technique="Coq interleaving model + enabledness/classification theorems + controlled schedules + wall-clock measurement on three transports",
         design="5/C13"),
     "C14": dict(
-        text="10 Coq theorems (no axioms): for every service table, handler, error text and request frame whose headers/envelope decode, the modelled "
+        text="24 Coq theorems (no axioms): for every service table, handler, error text and request frame whose headers/envelope decode, the modelled "
              "generated processor writes exactly one reply frame (or none for a successful oneway) that an independent reader classifies as "
              "REPLY/EXCEPTION of the tabled kind with the request's op id; at most one whole frame for any input; for every mutex-respecting "
              "schedule of any number of goroutines on one shared framed output the output is a permutation of whole own replies with nothing "
